@@ -49,6 +49,9 @@ def form_lines(st):
         return _L("sim_v%d = S.op('%s')" % (i, p[0]))
     if f == 'expr':
         return _L("S.op('%s')" % p[0])
+    if f == 'zcall':
+        # (the implicit example the native runner builds for a function callable without arguments)
+        return _L("%s()" % st['name'])
     if f == 'print':
         return _L("print(S.op('%s'))" % p[0])
     if f == 'emit':
@@ -271,7 +274,7 @@ def form_out(st):
     return []
 
 
-EXPR_FORMS = {'expr', 'print', 'emit', 'emitnoeol', 'emitcr', 'keepglobal', 'writekept', 'coroexpr', 'reprexpr', 'sayval', 'modsay', 'say', 'multiline', 'semiemit', 'tqprint', 'callhelper_expr', 'callhelper_emit',
+EXPR_FORMS = {'expr', 'zcall', 'print', 'emit', 'emitnoeol', 'emitcr', 'keepglobal', 'writekept', 'coroexpr', 'reprexpr', 'sayval', 'modsay', 'say', 'multiline', 'semiemit', 'tqprint', 'callhelper_expr', 'callhelper_emit',
               'callmod_expr', 'awaitexpr', 'awaitprint', 'names', 'emitop'}
 VALUE_FORMS = {'expr': 0, 'multiline': 0, 'callhelper_expr': 0, 'callmod_expr': 0, 'awaitexpr': 0, 'emitop': 0, 'reprexpr': 0}
 NOCODE_FORMS = {'comment', 'directive', 'blankprompt'}
@@ -612,6 +615,13 @@ def render_module(mod, env=None, defaults=None):
             if it.get('doc'):
                 render_docstring(it['doc'], '    ', out, 1, modname, it['name'], meta, env, defaults)
             out.append('    return a')
+        elif it['kind'] == 'zfunc':
+            # no docstring, callable without arguments
+            out.append('def %s():' % it['name'])
+            out.append("    S.%s('%s')" % ('emit' if it.get('emits') else 'op', it['pid']))
+            meta['%s::%s:0' % (modname, it['name'])] = {
+                'lineno': 1, 'modname': modname, 'callname': it['name'], 'num': 0,
+                'steps': [{'first': 1, 'last': 1, 'want_line': None, 'want_text': None, 'runs_nominally': True}]}
         elif it['kind'] == 'class':
             out.append('class %s:' % it['name'])
             if it.get('doc'):
@@ -670,9 +680,16 @@ def iter_doctests(world):
                 for m in it.get('methods', []):
                     if m.get('doc'):
                         docs.append((it['name'] + '.' + m['name'], m['doc']))
+            elif it['kind'] == 'zfunc':
+                yield '%s::%s:0' % (modname, it['name']), zero_arg_doctest(it), mod
             for callname, doc in docs:
                 for num, dt in enumerate(doc['doctests']):
                     yield '%s::%s:%d' % (modname, callname, num), dt, mod
+
+
+def zero_arg_doctest(it):
+    return {'zero_arg': True, 'tag': 'Example',
+            'steps': [{'i': 0, 'form': 'zcall', 'name': it['name'], 'pts': [it['pid']], 'ps2': False, 'sep': 'none'}]}
 
 
 def point_owner_map(world):
